@@ -52,7 +52,9 @@ package batchrelease
 //@ requires release != nil && newStatus != nil
 //@ ensures le_partition: part(release) != nil && *part(release) >= 0 ==> cur(newStatus) <= *part(release)
 //@ ensures in_plan: len(release.Spec.ReleasePlan.Batches) > 0 ==> cur(newStatus) <= len(release.Spec.ReleasePlan.Batches) - 1
-//@ ensures nonneg: (part(release) != nil ==> *part(release) >= 0) && len(release.Spec.ReleasePlan.Batches) > 0 ==> cur(newStatus) >= 0
+// (F16) whatever batchPartition holds - the CRD sets no minimum and nothing validates a BatchRelease - the batch the status
+// names exists: a negative partition must not become a negative current batch (it is indexed on the next reconcile).
+//@ ensures nonneg: cur(newStatus) >= 0
 //@ ensures falls_back: bstate(newStatus) == v1beta1.UpgradingBatchState && newStatus.CanaryStatus.BatchReadyTime == nil
 
 //@ func signalRestartBatch
